@@ -254,10 +254,15 @@ def body_discovery(i1, i2, nseg, slash, restarts, bare_existing=False, plain_las
                 last = _discovery(i1, i2, nseg, slash_, restarts, bare_existing, plain_)
                 if not last[0]:
                     return last
+        # ... and once more with an object stored directly in each home set (the home sets are ordinary untyped
+        # collections; Store.get_type guesses a type from such a member): the collections are still discovered
+        stray = _discovery(i1, i2, nseg, False, restarts, bare_existing, False, stray=True)
+        if not stray[0]:
+            return (False, stray[1] + ":stray")
         return last
 
 
-def _discovery(i1, i2, nseg, slash, restarts, bare_existing=False, plain_last=False):
+def _discovery(i1, i2, nseg, slash, restarts, bare_existing=False, plain_last=False, stray=False):
     prefix, wsgi, mode = ctx.PART  # mode: "defaults" | "autocreate" | "wsgi-<m>" (xandikos/wsgi.py) | "cli-<m>" (web.main)
     wsgi_module = mode.startswith("wsgi-")
     cli = mode.startswith("cli-")
@@ -293,6 +298,11 @@ def _discovery(i1, i2, nseg, slash, restarts, bare_existing=False, plain_last=Fa
         if r.status_class != "2xx":
             return (False, "mkcalendar-failed")
         cal = base + "/calendars/mine"
+    if stray:
+        for (p_, b_, ct_) in ((base + "/calendars/stray.ics", b"xs", "text/calendar"), (base + "/contacts/stray.vcf", b"v5", "text/vcard")):
+            r = mweb.call(app, "PUT", p_, body=b_, content_type=ct_, prefix=prefix, wsgi=wsgi)
+            if r.status_class == "5xx":
+                return (False, "stray-put-crashed")
     if mode == "defaults" and bare_existing:
         # the address book was put there by other means as a BARE git repository holding user data
         from xv.env import mstore
